@@ -15,8 +15,8 @@ from concurrent.futures.process import BrokenProcessPool
 from typing import Dict, List, Optional
 
 VERIF = os.path.dirname(os.path.dirname(os.path.abspath(__file__)))
-EVIDENCE_DIR = os.path.join(VERIF, "evidence")
-REPLAY_DIR = os.path.join(VERIF, "replays")
+EVIDENCE_DIR = os.environ.get("SIMREX_EVIDENCE_DIR") or os.path.join(VERIF, "evidence")  # overridden only by the mutant tooling
+REPLAY_DIR = os.environ.get("SIMREX_REPLAY_DIR") or os.path.join(VERIF, "replays")
 KNOWN = os.path.join(VERIF, "known_findings.json")
 
 REAL_VS_STUB = {
